@@ -72,7 +72,7 @@ theorem mNumber_nolead (c : UInt8) (r : Bytes) (h : leadNum c = false) : mNumber
   simp [mNumber, h43, h45, h46, List.takeWhile_cons, hd]
 
 theorem mTags_nolead (c : UInt8) (r : Bytes) (h : (c == 123) = false) : mTags (c :: r) = 0 := by
-  simp [mTags, bne, h]
+  unfold mTags; split <;> simp [mTagsQuoteAware, mTagsGreedy, bne, h]
 
 
 /-- the winner among the seven candidates when everything but candidate `j` is 0 (or ties behind it) -/
